@@ -107,6 +107,8 @@ def worker_main(argv: list[str]) -> int:
         argv[0], argv[1], int(argv[2]), int(argv[3]), int(argv[4]), argv[5],
         argv[6])
     setup_environment(boundscheck=part.endswith("@bc"))
+    import faulthandler
+    faulthandler.enable()  # Python traceback into the worker log on SIGSEGV
     from vf.core import Ctx, Violation  # noqa: PLC0415
     check_import()
     mod = load_prop(pid)
@@ -124,8 +126,9 @@ def worker_main(argv: list[str]) -> int:
             shutil.rmtree(ctx.replay_dir, ignore_errors=True)
         return 0
     # 1. known findings: replay the reproducer of every open finding
-    if part in ("main", "replays"):
-        run_known_and_replays(ctx, mod, do_replays=(shard == 0))
+    if part.split("@")[0] in ("main", "replays"):
+        run_known_and_replays(ctx, mod, do_replays=(
+            shard == 0 and not part.endswith("@bc")))
     # 2. the generated search
     if part != "replays":
         mod.run(ctx)
@@ -283,6 +286,10 @@ def parent_main(pid: str, tier: str) -> int:
                         # shard with numba's bounds checking switched on, which
                         # turns the bad access into an IndexError = a violation
                         # with a proper replay file.
+                        with open(log, encoding="utf-8") as f:
+                            tail = f.read()[-3000:]
+                        print(f"NOTE: worker {part}/{shard} died with signal "
+                              f"{-rc}; its log ends with:\n{tail}")
                         crashed.append((part, shard, rc))
                         queue.append((part + "@bc", shard))
                     else:
